@@ -8,12 +8,13 @@
    * `self.bytes[self.pos]` (fn current) is an unchecked index: Panic when out of range;
    * `&self.input[a..b]` is a str slice: Panic unless a <= b and both are char boundaries
      (core::str::is_char_boundary);
-   * `depth` of scan_block_comment is an i32 with checked `+= 1`; `self.pos -= 1` is a checked usize
+   * `depth` of skip_block_comment is an i32 with checked `+= 1`; `self.pos -= 1` is a checked usize
      subtraction;
    * every `while` / `loop` is a Fixpoint on fuel with an explicit OutOfFuel outcome; callers pass
      `S (length input)`; Proof/LexerTotal.v shows that OutOfFuel never happens with that fuel;
-   * the tail calls `self.next_token()` after a comment (scan_minus, scan_block_comment) are the
-     `Again` result of a scanner: next_token then calls itself (one more Rust stack frame);
+   * next_token is a Rust `loop` that skips comments (since /repo d86c1b1; before, scan_minus and
+     scan_block_comment tail-called self.next_token(), one stack frame per comment): `Again` is the
+     `continue` of that loop, the Gallina recursion of next_token is the next ITERATION, not a call;
    * keyword lookup (phf map) is membership of the upper-cased identifier in Model/LexerKeywords.v;
    * `num_str.parse::<u32>()` on a non-empty all-digit string is "value <= u32::MAX".  *)
 From Coq Require Import ZArith List Bool Arith.
@@ -101,7 +102,7 @@ Inductive tok :=
 
 Record lx := mkLx { pos : nat; line : Z; col : Z }.
 
-(* what one scan_* helper hands back to next_token: a token, or "return self.next_token()" *)
+(* what one iteration of next_token's loop yields: a token, or `continue` after a comment *)
 Inductive sres := Done (t : tok) (st : lx) | Again (st : lx).
 
 Section Lexer.
@@ -364,15 +365,13 @@ Definition scan_minus (st : lx) : res sres :=
   do st1 <- advance st;
   if is_eof st1 then Ok (Done (T k_minus) st1) else
   do c <- current st1;
-  if c =? 45 then
-    (do st2 <- skip_while not_newline lfuel st1; Ok (Again st2))      (* self.next_token() *)
-  else if c =? 62 then
+  if c =? 62 then
     (do a <- advance st1;
      do g <- at_byte (Z.eqb 62) a;
      if g then (do b <- advance a; Ok (Done (T k_darrow) b)) else Ok (Done (T k_arrow) a))
   else Ok (Done (T k_minus) st1).
 
-(* the `while !self.is_eof() && depth > 0` loop of scan_block_comment; depth : i32 *)
+(* the `while !self.is_eof() && depth > 0` loop of skip_block_comment; depth : i32 *)
 Fixpoint block_loop (fuel : nat) (depth : Z) (st : lx) : res (lx * Z) :=
   match fuel with
   | O => OutOfFuel
@@ -387,17 +386,10 @@ Fixpoint block_loop (fuel : nat) (depth : Z) (st : lx) : res (lx * Z) :=
       else (do a <- advance st; block_loop f depth a)
   end.
 
-Definition scan_block_comment (st : lx) : res sres :=
+(* fn skip_block_comment: the opening `/*` has been consumed; true = terminated (depth == 0) *)
+Definition skip_block_comment (st : lx) : res (lx * bool) :=
   do ' (st1, depth) <- block_loop lfuel 1 st;
-  if 0 <? depth then Ok (Done (TErr e_block_comment) st1)
-  else Ok (Again st1).                                                (* self.next_token() *)
-
-Definition scan_slash (st : lx) : res sres :=
-  do st1 <- advance st;
-  if is_eof st1 then Ok (Done (T k_slash) st1) else
-  do c <- current st1;
-  if c =? 42 then (do a <- advance st1; scan_block_comment a)
-  else Ok (Done (T k_slash) st1).
+  Ok (st1, depth =? 0).
 
 (* ---------------------------------------------------------------- operators *)
 (* advance; if !eof && current == c2 { advance; two } else { one } *)
@@ -487,7 +479,7 @@ Definition scan_token (st : lx) : res sres :=
   else if ch =? 64 then scan_at_param st
   else if ch =? 63 then scan_question st
   else if ch =? 45 then scan_minus st
-  else if ch =? 47 then scan_slash st
+  else if ch =? 47 then scan_single (T k_slash) st            (* fn scan_slash *)
   else if ch =? 43 then scan_single (T k_plus) st
   else if ch =? 42 then scan_single (T k_star) st
   else if ch =? 37 then scan_single (T k_percent) st
@@ -511,15 +503,28 @@ Definition scan_token (st : lx) : res sres :=
   else if ch =? 46 then scan_dot st
   else scan_single (TErr e_unexpected_char) st.
 
+(* one iteration of the `loop` of next_token after skip_whitespace / token_start / the Eof test:
+   a line comment or a block comment ends with `continue` (Again), anything else is a token *)
+Definition comment_or_token (st1 : lx) : res sres :=
+  do c <- current st1;
+  if (c =? 45) && opt_is (peek_char st1) 45 then
+    (do st2 <- skip_while not_newline lfuel st1; Ok (Again st2))
+  else if (c =? 47) && opt_is (peek_char st1) 42 then
+    (do a <- advance st1;
+     do b <- advance a;
+     do ' (st2, closed) <- skip_block_comment b;
+     if closed then Ok (Again st2) else Ok (Done (TErr e_block_comment) st2))
+  else scan_token st1.
+
 (* fn next_token.  Result: the token, self.token_start, the lexer afterwards, and the number of
-   nested self.next_token() calls that produced it (Rust stack frames beyond the first). *)
+   comments skipped by the loop of this ONE call (iterations that ended with `continue`). *)
 Fixpoint next_token (fuel : nat) (st : lx) : res (tok * nat * lx * nat) :=
   match fuel with
   | O => OutOfFuel
   | S f =>
       do st1 <- skip_while is_ws lfuel st;
       if is_eof st1 then Ok (T k_eof, pos st1, st1, O) else
-      do r <- scan_token st1;
+      do r <- comment_or_token st1;
       match r with
       | Done t st2 => Ok (t, pos st1, st2, O)
       | Again st2 => do ' (t, ts, st3, d) <- next_token f st2; Ok (t, ts, st3, S d)
